@@ -200,10 +200,13 @@ static int listen_fd_for_port_idx(int idx) {
   return -1;
 }
 
+static int accept_fail = 0, accept_fail_errno = EMFILE;
 extern "C" int __wrap_accept(int lfd, struct sockaddr *a, socklen_t *n) {
   if (!kernel_is_simfd(lfd) || fds[lfd].kind != K_LISTEN) { errno = EBADF; return -1; }
   SimFd &l = fds[lfd];
   if (l.backlog.empty()) { errno = EWOULDBLOCK; S.stats["accept_wouldblock"]++; return -1; }
+  // the process is out of descriptors for a while (or the call is interrupted): the connection stays in the queue
+  if (accept_fail > 0) { accept_fail--; errno = accept_fail_errno; S.stats["accept_failed"]++; ev("accept_fail errno=%d left=%d", errno, accept_fail); return -1; }
   int cid = l.backlog.front(); l.backlog.pop_front();
   int fd = alloc_fd();
   fds[fd].kind = K_CONN; fds[fd].conn = cid;
@@ -414,6 +417,8 @@ static void do_step(const Step &st) {
     int cid = atoi(st.a[0].c_str());
     if (conns.count(cid))
       for (auto &r : split(st.a[1], ',')) if (!r.empty()) conns[cid].send_script.push_back(r);
+  } else if (op == "acceptfail") {  // acceptfail <k> [eintr]: the next k accept() calls fail with EMFILE (or EINTR)
+    accept_fail = atoi(st.a[0].c_str()); accept_fail_errno = (st.a.size() > 1 && st.a[1] == "eintr") ? EINTR : EMFILE;
   } else if (op == "recvintr") {    // recvintr <conn> <k>: the next k recv() calls on the connection return EINTR
     int cid = atoi(st.a[0].c_str());
     if (conns.count(cid)) conns[cid].recv_eintr += atoi(st.a[1].c_str());
